@@ -1,12 +1,33 @@
-"""Probe model for C08 (importable from pipelines as `verif_probes_c08.record`).
+"""Probe models for C08 (importable from pipelines as `verif_probes_c08.record` / `verif_probes_c08.rec__<tag>`).
 
 `record(detector, **arguments)` only notes that a model was executed (and with which arguments): the C08 check uses it
 to observe that a sweep with a bad key is refused BEFORE any pipeline runs.
+
+`rec__<tag>(detector, **arguments)` (any tag: the functions are made on demand) notes in addition WHICH model was
+executed — the check gives every model of a pipeline its own tag `<group>__<model name>` — and keeps the argument values
+it received, so that the check can see whether a swept value arrived in the model the key addresses.
 """
 from __future__ import annotations
 
-CALLS: list = []
+import copy
+
+CALLS: list = []       # one entry per executed model: the sorted names of its arguments (record) / [tag, arguments] (rec__)
+_MADE: dict = {}
 
 
 def record(detector, **arguments):
     CALLS.append(sorted(arguments))
+
+
+def __getattr__(name: str):
+    if not name.startswith("rec__"):
+        raise AttributeError(name)
+    if name not in _MADE:
+        tag = name[len("rec__"):]
+
+        def rec(detector, **arguments):
+            CALLS.append([tag, copy.deepcopy(arguments)])
+
+        rec.__name__ = name
+        _MADE[name] = rec
+    return _MADE[name]
